@@ -220,6 +220,8 @@ func runC20(c *Ctx) {
 			}
 		}
 	}
+	// 6. and once more after the process-wide switch has a history
+	c20AfterSwitchHistory(c, ev, fx)
 	c.Hist["fixtures"] = len(fx)
 	c.Hist["distinct"] = len(dist)
 }
